@@ -1064,6 +1064,12 @@ head is the inner source; route `[0, 1, 2, 4]` -/
 example : routeEdgesOf (exConfig.runEdge 0 (some 4) [1, 2, 3]) = some [[0, 1, 2, 4]] := by
   decide +kernel
 
+/-- self loops as origin edge (3: 1→1) and as destination edge (5: 2→2) are covered by the
+theorem (no exclusion): routes `[3, 1, 2]` and `[0, 1, 5]` -/
+example : routeEdgesOf (exConfig.runEdge 3 (some 2) [1, 2]) = some [[3, 1, 2]] ∧
+    routeEdgesOf (exConfig.runEdge 0 (some 5) [1, 2]) = some [[0, 1, 5]] := by
+  decide +kernel
+
 /-- adjacent case, origin edge 0 (0→1), destination edge 1 (1→2): both edges really traversed -/
 example : routeEdgesOf (exConfig.runEdge 0 (some 1) []) = some [[0, 1]] ∧
     routeCostsOf (exConfig.runEdge 0 (some 1) []) = some [[1000, 2000]] := by
